@@ -158,6 +158,7 @@ fn gen(rng: &mut Rng, _idx: u64, tier: Tier) -> Case {
     }
     gen::clock_steps_back(rng, &mut lines, 0.06);
     gen::long_uptime(rng, &mut lines, 0.03);
+    gen::near_time_boundary(rng, &mut lines, 0.02);
     let ops = gen::ops_of(rng, lines, Chunking::Line);
     let mut script = Script::file(args, ops);
     script.tcp = rng.chance(0.15);
